@@ -43,6 +43,9 @@ def _excludes_dropped(prog, f, dom, succ, bid, v):
                 continue
             for l, op, r in atoms(c, idx == 0):
                 for a, b_, o in ((l, r, op), (r, l, SWAP[op])):
+                    # the if / else-if form of the switch on the raw row's sense
+                    if "rowsense" in show(a) and const_of(b_) is not None and ((o == "==" and const_of(b_) != ord("N")) or (o == "!=" and const_of(b_) == ord("N"))):
+                        return True
                     if is_var(a, name=v, kind="l"):
                         cb = const_of(b_)
                         if cb is not None and ((o == "!=" and cb == -1) or (o == ">=" and cb >= 0) or (o == ">" and cb >= -1)):
